@@ -112,6 +112,7 @@ class SimSpawn:
         fl = self.faults.get(stem) or []
         fault = fl[n] if n < len(fl) else None
         old_argv, old_cwd, old_err, old_out = sys.argv, os.getcwd(), sys.stderr, sys.stdout
+        old_env = dict(os.environ)      # a child process has its own environment: whatever it does to it dies with it
         err, out = io.StringIO(), io.StringIO()
         sys.argv = ["_molli_run"] + argv[1:]
         rc = None
@@ -137,6 +138,9 @@ class SimSpawn:
             sys.argv = old_argv
             sys.stderr, sys.stdout = old_err, old_out
             os.chdir(old_cwd)
+            if dict(os.environ) != old_env:
+                os.environ.clear()
+                os.environ.update(old_env)
         if fault and fault["kind"] in ("torn_out", "kill_before_out") and rc is not None:
             # the child died after its commands ran but before / while writing its output file
             odir = argv[argv.index("-o") + 1]
